@@ -1703,6 +1703,9 @@ def run_share(m):
                 ea = epoch_actual(e)
                 idx = [i for i, tt in enumerate(_sh_times(a)) if ea[1][0] <= tt < ea[2][0]]
                 obj, out = attempt(lambda: src.during(build_epoch(e)))
+                if obj is not None:     # the attributes the result's axis will be built from (read without touching its `.time` cache)
+                    rec['own'] = [int(obj.t0), int(obj.sampling_interval), int(obj.data.shape[-1])]
+                    rec['want_own'] = [ea[4], sh.series[sid]['own']['dt'], len(idx)]
                 sh.series.append({'data': _sh_data_sel(sh.series[sid]['data'], idx), 'time': None,
                                   'own': dict(_own_of(a), t0=ea[4], n=len(idx), dt=sh.series[sid]['own']['dt'])})
             series.append(obj)
@@ -1791,6 +1794,10 @@ def check_share(c):
                                % (i + 1, cm, tr['impl'][:160], tr['want'][:160], c.line[:300]), {'meta': m}, case=c)
             later = later or k != 'T'
             continue
+        if k == 'D' and tr.get('own') is not None and tr['own'] != tr['want_own']:
+            sym = 't0-not-the-offset' if tr['own'][0] != tr['want_own'][0] else ('interval-changed' if tr['own'][1] != tr['want_own'][1] else 'count')
+            return Failure('series/during/result-axis/' + sym, 'command %d of a program over several live objects: the series returned by `during` starts at / is sampled every / holds '
+                           '%s (ps, ps, samples), the epoch offset / the source interval / the selection say %s  [op: %s]' % (i + 1, tr['own'], tr['want_own'], c.line[:300]), {'meta': m}, case=c)
         if k in ('N', 'Y', 'A', 'D', 'X'):
             if tr['impl'] != 'ok':
                 return Failure('share/construct/%s/raises' % k, 'command %d of a program over several live objects: %s raised: %s  [op: %s]'
@@ -2375,6 +2382,15 @@ def cases(rng, tier, seed):
         add(gen_derive(rng, 30))
     for _ in range(220 * scale):                      # class L8: programs over several live objects (series sharing / not sharing axis objects)
         add(gen_share(rng))
+    for u_, iv_ in (('D', 4050000000000000), ('h', 4050000000000000), ('W', 4725000000000000)):
+        # finding 6 (fixed 53d4d93): the result of `during` keeps the source's exact interval (67.5 min: the binary64 rate gave 1 ps more); lookups ON the result
+        ax_ = {'unit': u_, 't0': 0, 'dt': iv_, 'n': 6, 'ctor': 'length', 'g': iv_ // 6}
+        d_ = {'shape': [6], 'vals': [10, 11, 12, 13, 14, 15]}
+        ep_ = {'unit': 'ps', 't0': None, 'stop': {'k': 'time', 'unit': 'ps', 'sc': True, 'ps': [4 * iv_]}, 'offset': None,
+               'start': {'k': 'time', 'unit': 'ps', 'sc': True, 'ps': [0]}, 'duration': None}
+        q_ = {'k': 'time', 'unit': 'ps', 'sc': False, 'ps': [0, iv_, 2 * iv_, 3 * iv_]}
+        add({'op': 'share', 'kind': 'share', 'axis': ax_, 'cmds': [{'c': 'N', 'ax': 0, 'data': d_}, {'c': 'D', 'sid': 0, 'e': ep_},
+                                                                  {'c': 'L', 'sid': 1, 'look': {'op': 'at', 'q': q_}}, {'c': 'T', 'sid': 1}]})
     out, skipped = [], 0
     for m in CORPUS + metas:
         c = run_case(dict(m))
